@@ -174,7 +174,8 @@ def writer_inputs(rng: random.Random, tier: str, codes):
         vals.update(range(-2**20 + off, 2**20, stride * 8 if not thorough else 1))
         for v in sorted(vals):
             out.append((fn, ("I", v)))
-    for v in sorted(set(around_pows(-1, 2**35 - 2)) | {rng.randint(0, 2**34) for _ in range(50)}):
+    for v in sorted(set(around_pows(-1, 2**35 - 2)) | {rng.randint(0, 2**34) for _ in range(50)}
+                    | {-2, -3, -127, -128, -129, -2**31, -2**31 - 1, -2**35, -2**63, 2**35 - 1, 2**35, 2**63}):
         out.append(("write_compact_array_length", ("I", v)))
     for b in (True, False):
         out.append(("write_boolean", ("B", b)))
@@ -224,6 +225,10 @@ def writer_inputs(rng: random.Random, tier: str, codes):
         ms = set(v for v in around_pows(lo, hi))
         ms.update(rng.randint(lo, hi) for _ in range(300))
         ms.update(v for v in (2**53 - 1, 2**53, 2**53 + 1, 9007199254740993, 36028797018976313) if lo <= v <= hi)
+        if fn == "write_timedelta_i64":
+            # the reader returns every duration up to timedelta.max: the writer must take them back, also the
+            # last day, which lies outside the i64Timedelta type's own bounds
+            ms.update((86399999913600000, 86399999913600001, 86399999950000000, 86399999999999998, 86399999999999999))
         for m in sorted(ms):
             out.append((fn, ("T", m * 1000)))
         for m in list(sorted(ms))[:: max(1, len(ms) // 60)]:
@@ -556,6 +561,8 @@ def must_raise(fn, a):
         return not lo <= a[1] <= hi
     if fn in ("write_legacy_string", "write_nullable_legacy_string") and k == "S":
         return len(a[1]) > 32767
+    if fn == "write_compact_array_length" and k == "I":
+        return not -1 <= a[1] <= 2**35 - 2          # -1 is the null array; nothing else is negative
     return False
 
 
